@@ -8,6 +8,7 @@ import (
 	"fmt"
 	"math"
 	"math/big"
+	"strconv"
 	"strings"
 	"testing"
 
@@ -32,6 +33,10 @@ func (c MethodCase) goValue() (any, bool) {
 	case "jsonnum":
 		v, err := Decode(c.Value.Text, true)
 		return v, err == nil
+	case "i64":
+		// the executor's own integer representation (what integer literals and .bigint() produce)
+		i, err := strconv.ParseInt(c.Value.Text, 10, 64)
+		return i, err == nil
 	}
 	return c.Value.goValue(), true
 }
@@ -181,6 +186,15 @@ func methodGrid() []MethodCase {
 			}
 		}
 	}
+	// the executor's int64 representation at its limits, directly and as produced inside a path
+	for _, n := range []string{"-9223372036854775808", "9223372036854775807", "-9223372036854775807", "2147483648", "-2147483649", "0"} {
+		for _, m := range simple {
+			out = append(out, MethodCase{Chain: m, Value: Operand{"i64", n}})
+		}
+		for _, m := range []string{".abs()", ".floor()", ".ceiling()", ".string()", ".integer()", ".double()"} {
+			out = append(out, MethodCase{Chain: ".bigint()" + m, Value: Operand{"str", n}}, MethodCase{Chain: ".bigint()" + m, Value: Operand{"num", n}})
+		}
+	}
 	// other input types
 	for _, j := range []string{`null`, `true`, `false`, `"abc"`, `""`, `"true"`, `"T"`, `"yes"`, `"No"`, `"on"`, `"OFF"`, `"1"`, `"0"`, `"2"`, `"tru"`, `" 1"`, `"1 "`, `"0x10"`, `"1_0"`, `"1e5"`, `"1.0"`, `"+1"`, `"-0"`, `"Infinity"`, `"NaN"`, `"nan"`, `"inf"`, `[]`, `[1,2.5,"3"]`, `[[1]]`, `[null]`, `{}`, `{"a":1}`, `{"a":1,"b":{"c":2}}`, `[{"a":1},{"b":2}]`, `"2015-08-01"`, `"12:34:56"`} {
 		for _, m := range simple {
@@ -319,6 +333,14 @@ var checkKeyvalue = register("c16.keyvalue", func(c KVCase) *Violation {
 	return nil
 })
 
+var checkKVDistinctCase = register("c16.kvdistinct", func(c KVCase) *Violation {
+	d, err := Decode(c.Doc, c.UseNumber)
+	if err != nil {
+		return nil
+	}
+	return checkKVDistinct(d, c.Doc)
+})
+
 // checkKVDistinct: $[*].keyvalue() over an array of objects: ids equal within
 // an object and distinct across the objects.
 func checkKVDistinct(doc any, docText string) *Violation {
@@ -357,6 +379,59 @@ func checkKVDistinct(doc any, docText string) *Violation {
 				return violf("$[*].keyvalue() on %s: distinct objects %d and %d share id %s", docText, prev, oi, id)
 			}
 			seen[id] = oi
+		}
+	}
+	return nil
+}
+
+// checkKVAfterFilter: ids are a function of the object, so evaluating
+// .keyvalue() inside a (always true for non-empty objects) filter condition,
+// in existence mode or with a suppressed failure, must not change the ids of a
+// following .keyvalue() on the same items.
+var checkKVFilterCase = register("c16.kvfilter", func(c KVCase) *Violation {
+	d, err := Decode(c.Doc, c.UseNumber)
+	if err != nil {
+		return nil
+	}
+	return checkKVAfterFilter(d, c.Doc, c.Path)
+})
+
+func checkKVAfterFilter(doc any, docText string, prefix string) *Violation {
+	plain, _, _ := ParseSafe(prefix + ".keyvalue()")
+	guards := []string{" ? (exists(@.keyvalue().key))", " ? (exists(@.keyvalue().value.double()) || 1 == 1)", " ? (@.keyvalue().key starts with \"zz\" || 1 == 1)", " ? ((@.keyvalue().value > 1) is unknown || 1 == 1)"}
+	a := RunQuery(context.Background(), plain, doc)
+	if a.Class != EOK {
+		return nil
+	}
+	for _, g := range guards {
+		p, err, _ := ParseSafe(prefix + g + ".keyvalue()")
+		if err != nil {
+			continue
+		}
+		b := RunQuery(context.Background(), p, doc)
+		if b.Class != EOK {
+			continue
+		}
+		// the guard drops empty objects and non-objects; compare the ids of the triples both return
+		ids := map[string]string{}
+		for _, it := range a.Items {
+			t := it.(map[string]any)
+			ids[Render(t["key"], false)+"="+Render(t["value"], false)] = Render(t["id"], false)
+		}
+		dup := map[string]int{}
+		for _, it := range a.Items {
+			t := it.(map[string]any)
+			dup[Render(t["key"], false)+"="+Render(t["value"], false)]++
+		}
+		for _, it := range b.Items {
+			t := it.(map[string]any)
+			k := Render(t["key"], false) + "=" + Render(t["value"], false)
+			if dup[k] != 1 {
+				continue // the same member occurs in several objects: not attributable
+			}
+			if want := ids[k]; want != Render(t["id"], false) {
+				return violf("%s%s.keyvalue() on %s: member %s has id %s, but %s.keyvalue() gives it id %s", prefix, g, docText, k, Render(t["id"], false), prefix, want)
+			}
 		}
 	}
 	return nil
@@ -424,7 +499,11 @@ func TestC16(t *testing.T) {
 		ev.Sample("keyvalue", c)
 		ev.Check(rt, "c16.keyvalue", c, checkKeyvalue(c))
 		if d, err := Decode(c.Doc, c.UseNumber); err == nil {
-			ev.Check(rt, "c16.keyvalue", c, checkKVDistinct(d, c.Doc))
+			ev.Check(rt, "c16.kvdistinct", c, checkKVDistinctCase(c))
+			for _, pre := range []string{"$[*]", "$", "$.a", "$.a[*]", "strict $.**"} {
+				kc := KVCase{Doc: c.Doc, Path: pre, UseNumber: c.UseNumber}
+				ev.Check(rt, "c16.kvfilter", kc, checkKVFilterCase(kc))
+			}
 		}
 	})
 }
